@@ -159,6 +159,7 @@ read_os_info_from_lowcore(kdump_ctx_t *ctx)
 static kdump_status
 read_vmcoreinfo_from_lowcore(kdump_ctx_t *ctx)
 {
+	static const char note_name[] = "VMCOREINFO";
 	uint64_t addr;
 	Elf64_Nhdr hdr;
 	void *note;
@@ -182,7 +183,14 @@ read_vmcoreinfo_from_lowcore(kdump_ctx_t *ctx)
 	hdr.n_descsz = dump32toh(ctx, hdr.n_descsz);
 	hdr.n_type = dump32toh(ctx, hdr.n_type);
 
-	descoff = sizeof(Elf64_Nhdr) + ((hdr.n_namesz + 3) & ~3);
+	/* Anything but a VMCOREINFO note is ignored (see below); do not
+	 * trust a name size that cannot be that of "VMCOREINFO".
+	 */
+	if (hdr.n_namesz < sizeof(note_name) - 1 ||
+	    hdr.n_namesz > sizeof(note_name))
+		return KDUMP_OK;
+
+	descoff = sizeof(Elf64_Nhdr) + (((size_t)hdr.n_namesz + 3) & ~(size_t)3);
 	notesz = descoff + hdr.n_descsz;
 	note = ctx_malloc(notesz, ctx, "VMCOREINFO buffer");
 	if (!note)
@@ -191,7 +199,7 @@ read_vmcoreinfo_from_lowcore(kdump_ctx_t *ctx)
 	sz = notesz;
 	ret = read_locked(ctx, KDUMP_KPHYSADDR, addr, note, &sz);
 	if (ret == KDUMP_OK &&
-	    !memcmp(note + sizeof(Elf64_Nhdr), "VMCOREINFO", hdr.n_namesz))
+	    !memcmp(note + sizeof(Elf64_Nhdr), note_name, hdr.n_namesz))
 		ret = process_notes(ctx, note, notesz);
 
 	free(note);
